@@ -14,6 +14,19 @@ SITE_NOTE = "trusts the Go toolchain (compile gate), the harness' generator and 
 for pid, an in (("C01","immutabilitychecker"),("C02","constructorchecker"),("C03","testonlychecker"),("C04","packageonlychecker")):
     CHECKS[pid] = ("runtime monitor: diagnostics of %s on generated programs vs per-site reference verdicts" % an, SITE_TXT, SITE_NOTE, "DESIGN.md §2.4, §3 "+pid)
 
+CHECKS["C07"] = ("runtime monitor: one @ignore comment inserted per run of the real binary; diagnostic set vs reference scope model",
+  "For diagnostics of all 16 codes in generated programs, one @ignore comment is inserted (trailing / before statement / before enclosing compound statement / before declaration, attached or detached / before the package clause; in scope and just outside: previous or next line, sibling, other file; 12 code-list shapes) and the real binary is re-run; every (line, analyzer) must match the reference scope model, including TONL01/PKGO01 moving to the next unsuppressed use.",
+  SITE_NOTE, "DESIGN.md §3 C07")
+CHECKS["C12"] = ("metamorphic runtime monitor: same program model re-rendered in layout variants; diagnostics compared by stable line id and judged by the layout-blind reference model",
+  "Each generated program is run in its base layout and in 8 layout variants (declaration permutation, declarations moved between files, blank/comment lines, anti-formatting, local renaming and compositions); diagnostics keyed by stable line id (TONL01/PKGO01: per package and type) must equal the base rendering and the reference model.",
+  SITE_NOTE, "DESIGN.md §3 C12")
+CHECKS["C13"] = ("metamorphic runtime monitor: type mentions respelled (alias local / third package, parentheses, renamed import); diagnostics compared by line id and judged by the spelling-blind reference model",
+  "Each generated program is run with direct spellings and with every type mention of the using packages respelled through a local alias, an alias declared in a third package, parentheses, or renamed imports; the same lines must receive the same codes.",
+  SITE_NOTE, "DESIGN.md §3 C13")
+CHECKS["C14"] = ("runtime monitor: file of every diagnostic vs independent reference file filter; differential run with excluded files neutralised; per-site model under 8 configurations",
+  "Programs with regular, in-package and external test files and pool-token files (containing annotated types, file-level @ignore, violations) are run under scan-tests {off,on} x exclude-paths {empty, default, one, three tokens}: no diagnostic may lie in an excluded file, neutralising all annotations/@ignore inside excluded files must not change any diagnostic, and every line is judged by the reference model (test files never receive TONL).",
+  SITE_NOTE, "DESIGN.md §3 C14")
+
 PENDING_REASON = "monitor for this property is still under construction in this round (designed in DESIGN.md §3; not claimed until its check is silent on the unchanged tree)"
 def main():
     checks = []
